@@ -2,11 +2,9 @@ package main
 
 import (
 	"bufio"
-	"encoding/hex"
 	"fmt"
 	"math/rand"
 	"os"
-	"path/filepath"
 	"regexp"
 	"strconv"
 	"strings"
@@ -16,26 +14,15 @@ import (
 	"github.com/FollowTheProcess/spok/lexer"
 	"github.com/FollowTheProcess/spok/parser"
 	"github.com/FollowTheProcess/spok/token"
+
+	"verif/harness/sup"
 )
 
-func init() {
-	engines["syntax"] = &engine{gen: syntaxGen, work: syntaxWork, recycle: 20000, timeout: 30 * time.Second}
+func main() {
+	sup.Main("syntax", &sup.Engine{Gen: syntaxGen, Work: syntaxWork, Recycle: 20000, Timeout: 30 * time.Second})
 }
 
-func hx(s string) string {
-	if s == "" {
-		return "-"
-	}
-	return hex.EncodeToString([]byte(s))
-}
-
-func unhx(s string) (string, bool) {
-	if s == "-" {
-		return "", true
-	}
-	b, err := hex.DecodeString(s)
-	return string(b), err == nil
-}
+var hx, unhx, withWatchdog, atoi = sup.Hx, sup.Unhx, sup.WithWatchdog, sup.Atoi
 
 var ttCodes = map[token.Type]string{
 	token.EOF: "EOF", token.ERROR: "ERR", token.COMMENT: "COMMENT", token.HASH: "HASH", token.LPAREN: "LPAREN",
@@ -62,25 +49,6 @@ func errLoc(msg string) (int, string, bool) {
 		return 0, "", false
 	}
 	return n, tail[len(m[0]):], true
-}
-
-// withWatchdog runs f in a goroutine; ok=false when it did not finish in time
-func withWatchdog(d time.Duration, f func() string) (res string, ok bool) {
-	ch := make(chan string, 1)
-	go func() {
-		defer func() {
-			if r := recover(); r != nil {
-				ch <- "panic"
-			}
-		}()
-		ch <- f()
-	}()
-	select {
-	case s := <-ch:
-		return s, true
-	case <-time.After(d):
-		return "hang", false
-	}
 }
 
 func lexDump(in string) string {
@@ -595,27 +563,6 @@ func mutate(rng *rand.Rand, s string) string {
 	return string(b)
 }
 
-func corpusLines(w *bufio.Writer, engine string) {
-	dir := os.Getenv("VERIF_CORPUS")
-	if dir == "" {
-		dir = "/verif/corpus"
-	}
-	files, _ := filepath.Glob(filepath.Join(dir, engine, "*.txt"))
-	for _, f := range files {
-		data, err := os.ReadFile(f)
-		if err != nil {
-			continue
-		}
-		for _, line := range strings.Split(string(data), "\n") {
-			line = strings.TrimSpace(line)
-			if line == "" || strings.HasPrefix(line, "//") {
-				continue
-			}
-			fmt.Fprintln(w, line)
-		}
-	}
-}
-
 func repoSpokfiles() []string {
 	var out []string
 	for _, p := range []string{"/repo/spokfile", "/repo/docs/src/example.spok"} {
@@ -635,7 +582,7 @@ func syntaxGen(w *bufio.Writer, a map[string]string) {
 	if thorough {
 		scale = 10
 	}
-	corpusLines(w, "syntax")
+	sup.CorpusLines(w, "syntax")
 	for _, s := range repoSpokfiles() {
 		fmt.Fprintln(w, hx(s))
 	}
